@@ -19,8 +19,9 @@ class C10(common.SpecCheck):
             "targeted ones that schedule one PRNG-chosen node as early / as late as its recorded dependences allow). Invariants: sorted is a permutation of the "
             "graph's nodes; every edge (u,v) has pos(u) < pos(v); Loop/EndLoop well nested in loop order, Body innermost, "
             "Footer outside; nothing before Loop(r) is a descendant of Loop(r). Because a lost edge would pass vacuously, "
-            "the full translation also runs under each tie-break: text must stay closed and (plain mode) still compute the "
-            "dense model. distinct = distinct post-hoist node sequences; non-trivial = every such sequence")
+            "the full translation also runs under each tie-break: no name may be read before the statement that binds it "
+            "(a name that no statement of the text binds is not an ordering matter and is only counted) and (plain mode) the "
+            "text must still compute the dense model. distinct = distinct post-hoist node sequences; non-trivial = every such sequence")
     assumptions = ["tie-breaks form a superset of what real seeds reach; all of them are legal linear extensions of the "
                    "compiler's own graph"]
 
@@ -78,6 +79,8 @@ class C10(common.SpecCheck):
         for r in results.values():
             if r["status"] == "ok":
                 stats.add("tiebreak_choices", r["tiebreak_choices"])
+                if r.get("never_bound_under_tiebreak"):
+                    stats.add("texts_with_a_never_bound_name_under_an_artificial_order(not an order problem)", r["never_bound_under_tiebreak"])
                 for s in r["sequences"]:
                     self._seqs.add((common.orch.sha(common.specmod.to_yaml(spec)), s))
 
